@@ -468,3 +468,332 @@ Proof.
       exists q'. cbn [tl]. splits; assumption.
     + eexists. splits; try reflexivity. exact H1.
 Qed.
+
+(* ------------------------------------------------------------------ the two loops of enqueue *)
+Lemma count_to_end_spec : forall l' fuel q o p e,
+  sane (l' ++ [(p, e)]) -> contig o (l' ++ [(p, e)]) -> stored (cells q) (l' ++ [(p, e)]) ->
+  (length (l' ++ [(p, e)]) <= fuel)%nat -> lib q = p ->
+  count_to_end fuel q o = Ok (Z.of_nat (length (l' ++ [(p, e)]))).
+Proof.
+  induction l' as [|[o1 e1] r IH]; intros fuel q o p e Hs Hc Hst Hf Hl.
+  - cbn [app] in *. destruct fuel as [|f]; [cbn in Hf; lia|]. cbn [count_to_end].
+    apply stored_cons in Hst. destruct Hst as [Hfd _]. cbn [fst snd] in Hfd. cbn [contig] in Hc. destruct Hc as [-> _].
+    rewrite Hfd, Hl, Z.eqb_refl. reflexivity.
+  - cbn [app] in Hs, Hc, Hst, Hf. destruct fuel as [|f]; [cbn in Hf; lia|]. cbn [count_to_end].
+    pose proof Hs as Hs0. pose proof Hc as Hc0.
+    apply sane_cons in Hs. destruct Hs as [Hs1 Hs2]. apply stored_cons in Hst. destruct Hst as [Hfd Hst]. cbn [fst snd] in Hfd.
+    cbn [contig] in Hc. destruct Hc as [-> Hc]. rewrite Hfd.
+    assert (Hlt : o < p).
+    { apply (contig_before_last ((o, e1) :: r) o p e (o, e1)); [exact Hs0 | exact Hc0 | left; reflexivity]. }
+    assert (E2 : o =? lib q = false) by (apply Z.eqb_neq; lia). rewrite E2.
+    replace (o + HDR + e_sz e1) with (o + esz e1) by (unfold esz; lia).
+    rewrite (IH f q (o + esz e1) p e Hs2 Hc Hst); [| cbn [length] in Hf; lia | exact Hl].
+    f_equal. cbn [app length]. lia.
+Qed.
+
+Lemma lastoff_cons2 (x y : Z * ent) r : lastoff (x :: y :: r) = lastoff (y :: r). Proof. reflexivity. Qed.
+
+(* make_room drops d entries from the front of the upper run U (which starts at first q and ends at lib q) *)
+Lemma make_room_spec : forall U fuel q next esize,
+  U <> [] -> sane U -> contig (first q) U -> stored (cells q) U -> lib q = lastoff U ->
+  Z.of_nat (length U) <= cnt q -> (length U < fuel)%nat ->
+  exists q' d, make_room fuel q next esize = Ok q' /\ (d <= length U)%nat /\
+    cnt q' = cnt q - Z.of_nat d /\ qsize q' = qsize q /\ last q' = last q /\ nid q' = nid q /\ cells q' = cells q /\
+    ((d < length U)%nat /\ contig (first q') (skipn d U) /\ lib q' = lib q /\ next + esize <= first q' /\
+       endof (first q') (skipn d U) = endof (first q) U /\ lastoff (skipn d U) = lastoff U /\ first q <= first q'
+     \/ d = length U /\ first q' = 0 /\ lib q' = next).
+Proof.
+  induction U as [|[o1 e1] r IH]; intros fuel q next esize Hne Hs Hc Hst Hl Hcnt Hf; [congruence|].
+  destruct fuel as [|f]; [lia|]. cbn [make_room].
+  cbn [contig] in Hc. destruct Hc as [Ho1 Hc]. subst o1.
+  destruct (next + esize >? first q) eqn:G.
+  2:{ (* already enough room *) apply gtb_false_inv in G. cbn [andb].
+      exists q, 0%nat. cbn [skipn length]. splits; try reflexivity; try lia.
+      left. splits; try reflexivity; try lia. cbn [contig]. split; [reflexivity | exact Hc]. }
+  assert (P : 0 <? cnt q = true) by (apply Z.ltb_lt; cbn [length] in Hcnt; lia). rewrite P. cbn [andb]. rs.
+  apply sane_cons in Hs. destruct Hs as [Hs1 Hs2]. cbn [snd] in Hs1.
+  apply stored_cons in Hst. destruct Hst as [Hfd Hst]. cbn [fst snd] in Hfd.
+  destruct r as [|p2 r2].
+  - (* the last entry of the run goes: continue at the buffer start *)
+    cbn in Hl. assert (E : first q =? lib q = true) by (apply Z.eqb_eq; lia). rewrite E.
+    eexists. exists 1%nat. split; [reflexivity|]. rs. cbn [length]. splits; try reflexivity; try lia.
+    all: try (right; splits; reflexivity).
+  - rewrite lastoff_cons2 in Hl.
+    assert (Hlt : first q < lib q).
+    { destruct (snoc_cases (p2 :: r2) ltac:(discriminate)) as (l' & [pl el] & EL).
+      rewrite Hl, EL, lastoff_snoc.
+      apply (contig_before_last ((first q, e1) :: l') (first q) pl el (first q, e1)); [| | left; reflexivity].
+      - change (sane ([(first q, e1)] ++ l' ++ [(pl, el)])). rewrite <- EL. apply sane_cons. split; assumption.
+      - change (contig (first q) ([(first q, e1)] ++ l' ++ [(pl, el)])). rewrite <- EL. cbn [app contig]. split; [reflexivity | exact Hc]. }
+    assert (E : first q =? lib q = false) by (apply Z.eqb_neq; lia). rewrite E, Hfd.
+    replace (first q + HDR + e_sz e1) with (first q + esz e1) by (unfold esz; lia).
+    set (q2 := setq (setq q (cnt q - 1) (first q) (last q) (lib q)) (cnt q - 1) (first q + esz e1) (last q) (lib q)).
+    destruct (IH f q2 next esize ltac:(discriminate) Hs2) as (q' & d & Em & Hd & Hcn & Hqs & Hla & Hni & Hce & Hres).
+    + unfold q2. rs. exact Hc.
+    + unfold q2. rs. exact Hst.
+    + unfold q2. rs. exact Hl.
+    + unfold q2. rs. cbn [length] in Hcnt |- *. lia.
+    + cbn [length] in Hf |- *. lia.
+    + exists q', (S d). split; [exact Em|]. unfold q2 in *. cbn [qsize cnt first last lib nid cells setq] in *.
+      cbn [length skipn] in *. pose proof (esz_ge e1 ltac:(lia)).
+      splits; try assumption; try lia.
+      destruct Hres as [(H1 & H2 & H3 & H4 & H5 & H6 & H7) | (H1 & H2 & H3)]; [left | right].
+      * cbn [endof]. splits; try assumption; try lia.
+      * splits; try assumption; lia.
+Qed.
+
+(* ------------------------------------------------------------------ list helpers *)
+Lemma Forall_skipn {A} (P : A -> Prop) : forall d l, Forall P l -> Forall P (skipn d l).
+Proof. induction d as [|d IH]; intros l H; [exact H|]. destruct l; [constructor|]. inversion H; subst. cbn [skipn]. apply IH. assumption. Qed.
+
+Lemma ids_from_app : forall a b k, ids_from k (a ++ b) <-> ids_from k a /\ ids_from (k + Z.of_nat (length a)) b.
+Proof.
+  induction a as [|x r IH]; intros b k; cbn [app ids_from length].
+  - rewrite Z.add_0_r. tauto.
+  - rewrite IH. replace (k + 1 + Z.of_nat (length r)) with (k + Z.of_nat (S (length r))) by lia. tauto.
+Qed.
+
+Lemma ids_from_skipn : forall d l k, (d <= length l)%nat -> ids_from k l -> ids_from (k + Z.of_nat d) (skipn d l).
+Proof.
+  induction d as [|d IH]; intros l k Hd H; [rewrite Z.add_0_r; exact H|].
+  destruct l as [|x r]; [cbn in Hd; lia|]. cbn [skipn]. cbn [ids_from] in H. destruct H as [_ H]. cbn [length] in Hd.
+  replace (k + Z.of_nat (S d)) with (k + 1 + Z.of_nat d) by lia. apply IH; [lia | exact H].
+Qed.
+
+Lemma skipn_length_le {A} d (l : list A) : (d <= length l)%nat -> length (skipn d l) = (length l - d)%nat.
+Proof. intros _. apply skipn_length. Qed.
+
+(* ------------------------------------------------------------------ the last step of enqueue: write the entry *)
+Definition new_ent (q : mqs) (a : list Z) : ent := {| e_id := nid q; e_st := QWAIT; e_sz := Z.of_nat (length a); e_asdu := a |}.
+
+Definition finish (q5 : mqs) (nx : Z) (e : ent) : mqs :=
+  {| qsize := qsize q5; cnt := cnt q5 + 1; first := first q5; last := nx;
+     lib := (if nx >? lib q5 then nx else lib q5); nid := nid q5 + 1; cells := write (cells q5) nx e |}.
+
+Definition geom (q5 : mqs) (K : lay_t) (nx : Z) (e : ent) : Prop :=
+  (K = [] /\ nx = 0 /\ first q5 = 0 /\ lib q5 = 0) \/
+  (K <> [] /\ 0 <= first q5 /\ contig (first q5) K /\ nx = endof (first q5) K /\ lib q5 <= nx /\ nx + esz e <= qsize q5) \/
+  (exists A B', K = A ++ B' /\ A <> [] /\ contig (first q5) A /\ lib q5 = lastoff A /\ endof (first q5) A <= qsize q5 /\
+                contig 0 B' /\ nx = endof 0 B' /\ nx + esz e <= first q5).
+
+Lemma finish_inv q5 K nx e :
+  cnt q5 = Z.of_nat (length K) -> 272 <= qsize q5 -> sane K -> stored (cells q5) K ->
+  ids_from (nid q5 - cnt q5) K -> 0 <= nid q5 - cnt q5 -> e_id e = nid q5 -> 0 <= e_sz e <= 250 ->
+  geom q5 K nx e -> MQInv (finish q5 nx e) (K ++ [(nx, e)]).
+Proof.
+  intros Hc Hq Hs Hst Hid Hn Hei Hes Hg. pose proof (esz_ge e ltac:(lia)) as He16.
+  assert (Hesz : esz e <= 266) by (unfold esz, HDR; lia).
+  unfold MQInv, finish. rs. rewrite app_length. cbn [length].
+  assert (Hsane : sane (K ++ [(nx, e)])) by (apply sane_app; split; [exact Hs | constructor; [exact Hes | constructor]]).
+  assert (Hids : ids_from (nid q5 + 1 - (cnt q5 + 1)) (K ++ [(nx, e)])).
+  { replace (nid q5 + 1 - (cnt q5 + 1)) with (nid q5 - cnt q5) by lia. apply ids_from_app. split; [exact Hid|].
+    cbn [ids_from snd]. split; [lia | exact I]. }
+  destruct Hg as [(-> & -> & Hf & Hl) | [(Kne & H0 & Hcg & -> & Hl & Hfit) | (A & B' & -> & HA & HcA & Hl & HeA & HcB & -> & Hfit)]].
+  - (* first entry of an empty queue *)
+    cbn [app length] in *. splits; try assumption; try lia.
+    + constructor; [cbn [fst snd]; apply find_write_same | constructor].
+    + right; left. unfold Lin. rs. rewrite Hf, Hl. cbn [contig endof lastoff List.last fst]. splits; try reflexivity; try lia.
+  - (* behind the last entry *)
+    splits; try assumption; try lia.
+    + apply stored_app. split.
+      * apply (stored_write _ K (first q5)); try assumption; try lia.
+      * constructor; [cbn [fst snd]; apply find_write_same | constructor].
+    + right; left. unfold Lin. rs. rewrite lastoff_snoc, endof_snoc.
+      assert (El : (if endof (first q5) K >? lib q5 then endof (first q5) K else lib q5) = endof (first q5) K).
+      { destruct (endof (first q5) K >? lib q5) eqn:G; [reflexivity | apply gtb_false_inv in G; lia]. }
+      rewrite El. splits; try reflexivity; try lia. apply contig_snoc. split; [exact Hcg | reflexivity].
+  - (* below the upper run *)
+    apply sane_app in Hs. destruct Hs as [HsA HsB]. apply stored_app in Hst. destruct Hst as [HstA HstB].
+    assert (Hn0 : 0 <= endof 0 B') by (pose proof (endof_ge B' 0 HsB); lia).
+    assert (Hlibge : first q5 <= lib q5).
+    { destruct (snoc_cases A HA) as (A' & [pa ea] & EA). rewrite EA in *. rewrite Hl, lastoff_snoc.
+      destruct (contig_bounds _ _ (pa, ea) HsA HcA) as [Hb _]; [apply in_or_app; right; left; reflexivity | exact Hb]. }
+    splits; try assumption; try lia.
+    + apply stored_app. split; [apply stored_app; split|].
+      * apply (stored_write _ A (first q5)); try assumption; try lia.
+      * apply (stored_write _ B' 0); try assumption; try lia.
+      * constructor; [cbn [fst snd]; apply find_write_same | constructor].
+    + right; right. exists A, (B' ++ [(endof 0 B', e)]). rs.
+      assert (El : (if endof 0 B' >? lib q5 then endof 0 B' else lib q5) = lib q5).
+      { destruct (endof 0 B' >? lib q5) eqn:G; [apply gtb_true_inv in G; lia | reflexivity]. }
+      rewrite El, lastoff_snoc, endof_snoc.
+      splits; try assumption; try lia.
+      * rewrite app_assoc. reflexivity.
+      * destruct B'; discriminate.
+      * apply contig_snoc. split; [exact HcB | reflexivity].
+Qed.
+
+
+(* ------------------------------------------------------------------ MessageQueue_enqueueASDU *)
+Definition lenz (a : list Z) : Z := Z.of_nat (length a).
+
+Lemma geb_true x y : y <= x -> (x >=? y) = true. Proof. intros H. apply Z.geb_le. exact H. Qed.
+
+Lemma skipn_all_app {A} (a b : list A) d : skipn (length a + d) (a ++ b) = skipn d b.
+Proof. rewrite skipn_app. rewrite skipn_all2 by lia. replace (length a + d - length a)%nat with d by lia. reflexivity. Qed.
+
+Lemma skipn_app_le {A} (a b : list A) d : (d <= length a)%nat -> skipn d (a ++ b) = skipn d a ++ b.
+Proof. intros H. rewrite skipn_app. replace (d - length a)%nat with 0%nat by lia. reflexivity. Qed.
+
+Theorem mq_enqueue_spec q l a : MQInv q l ->
+  (250 < lenz a -> mq_enqueue q a = Ok q) /\
+  (lenz a <= 250 -> exists q' D nx, mq_enqueue q a = Ok q' /\ (D <= length l)%nat /\
+       MQInv q' (skipn D l ++ [(nx, new_ent q a)]) /\ nid q' = nid q + 1 /\ qsize q' = qsize q).
+Proof.
+  intros H. pose proof (inv_total q l H) as Htot. pose proof H as (Hc & Hq & Hs & Hst & Hid & Hn & Hg).
+  unfold mq_enqueue. fold (lenz a). change (256 - 6) with 250.
+  split; intros Hlen.
+  { rewrite (gtb_true _ _ Hlen). reflexivity. }
+  rewrite (gtb_false _ _ Hlen).
+  assert (Hla0 : 0 <= lenz a) by (unfold lenz; lia).
+  set (e := new_ent q a).
+  assert (Hes : 0 <= e_sz e <= 250) by (unfold e, new_ent; cbn [e_sz]; fold (lenz a); lia).
+  assert (Hesz : esz e = HDR + lenz a) by reflexivity.
+  assert (Hfu : (length l <= Z.to_nat (qsize q / HDR))%nat) by (apply fuel_ok; lia).
+  destruct l as [|x0 r0].
+  - (* empty queue *)
+    cbn [length] in Hc. assert (E : cnt q =? 0 = true) by (apply Z.eqb_eq; lia). rewrite E. rs.
+    exists (finish (setq q (cnt q) 0 (last q) 0) 0 e), 0%nat, 0. split; [reflexivity|]. cbn [skipn app length].
+    split; [lia|]. split; [|split; reflexivity].
+    apply (finish_inv (setq q (cnt q) 0 (last q) 0) [] 0 e); rs; cbn [length]; try assumption; try lia; try constructor.
+    splits; reflexivity.
+  - assert (Hpos : 0 < cnt q) by (cbn [length] in Hc; lia).
+    assert (E : cnt q =? 0 = false) by (apply Z.eqb_neq; lia). rewrite E.
+    destruct Hg as [Hn0 | [HL | HW]]; [discriminate| |].
+    + (* ---------------- linear *)
+      destruct HL as (H0 & Hcg & Hlast & Hli & He).
+      destruct (snoc_cases (x0 :: r0) ltac:(discriminate)) as (l' & [pl el] & EL). rewrite EL in *.
+      rewrite lastoff_snoc in Hlast.
+      pose proof (proj1 (Forall_forall _ _) Hst (pl, el) ltac:(apply in_or_app; right; left; reflexivity)) as Hfl. cbn [fst snd] in Hfl.
+      rewrite Hlast, Hfl.
+      assert (Hnx : pl + HDR + e_sz el = endof (first q) (l' ++ [(pl, el)])).
+      { rewrite endof_snoc. apply contig_snoc in Hcg. destruct Hcg as [_ ->]. unfold esz. lia. }
+      rewrite Hnx. set (nx0 := endof (first q) (l' ++ [(pl, el)])) in *.
+      assert (Hgt : first q < nx0).
+      { pose proof (endof_ge (l' ++ [(pl, el)]) (first q) Hs). rewrite app_length in H1. cbn [length] in H1. unfold nx0. lia. }
+      assert (Hel : 0 <= e_sz el <= 250).
+      { pose proof (proj1 (Forall_forall _ _) Hs (pl, el) ltac:(apply in_or_app; right; left; reflexivity)) as X. exact X. }
+      assert (Hpl : pl + 16 <= nx0) by (unfold HDR in Hnx; lia).
+      destruct (nx0 + (HDR + lenz a) >? qsize q) eqn:W.
+      * (* L2: does not fit behind the last entry: wrap to offset 0, drop from the front *)
+        assert (Z0 : nx0 <=? first q = false) by (apply Z.leb_gt; lia). rewrite Z0.
+        assert (Hfl2 : first q <= pl).
+        { destruct (contig_bounds _ _ (pl, el) Hs Hcg) as [Hb _]; [apply in_or_app; right; left; reflexivity | exact Hb]. }
+        rewrite Hlast. rewrite (geb_true pl (first q) Hfl2). rs.
+        assert (Z1 : 0 <=? first q = true) by (apply Z.leb_le; lia). rewrite Z1.
+        set (q2 := setq q (cnt q) (first q) pl pl).
+        set (U := l' ++ [(pl, el)]) in *.
+        destruct (make_room_spec U (FUEL q) q2 0 (HDR + lenz a)) as (q4 & d & Em & Hd & Hcn & Hqs & Hla4 & Hni & Hce & Hres);
+          try (unfold q2; rs; assumption).
+        { unfold U. destruct l'; discriminate. }
+        { unfold q2. rs. unfold U. rewrite lastoff_snoc. reflexivity. }
+        { unfold q2. rs. lia. }
+        { unfold FUEL. lia. }
+        rewrite Em. unfold q2 in Hcn, Hqs, Hla4, Hni, Hce, Hres. cbn [qsize cnt first last lib nid cells setq] in Hcn, Hqs, Hla4, Hni, Hce, Hres.
+        eexists. exists d, 0. split; [reflexivity|]. split; [exact Hd|]. split; [|split; [rs; lia | rs; lia]].
+        match goal with |- MQInv ?Q _ => replace Q with (finish q4 0 e) by (unfold finish, e, new_ent; rewrite Hni; reflexivity) end.
+        assert (HsK : sane (skipn d U)) by (apply Forall_skipn; exact Hs).
+        assert (HstK : stored (cells q4) (skipn d U)) by (rewrite Hce; apply Forall_skipn; exact Hst).
+        assert (HidK : ids_from (nid q4 - cnt q4) (skipn d U)).
+        { rewrite Hni, Hcn. replace (nid q - (cnt q - Z.of_nat d)) with (nid q - cnt q + Z.of_nat d) by lia. apply ids_from_skipn; assumption. }
+        apply (finish_inv q4 (skipn d U) 0 e); try assumption; try lia.
+        -- rewrite Hcn, skipn_length. lia.
+        -- unfold e, new_ent. cbn [e_id]. lia.
+        -- destruct Hres as [(H1 & H2 & H3 & H4 & H5 & H6 & H7) | (H1 & H2 & H3)].
+           ++ right; right. exists (skipn d U), []. rewrite app_nil_r. cbn [contig endof].
+              splits; first [ assumption | reflexivity | lia
+                | (intros E0; apply (f_equal (@length _)) in E0; rewrite skipn_length in E0; cbn [length] in E0; lia)
+                | (rewrite H3; unfold q2; rs; rewrite H6; unfold U; rewrite lastoff_snoc; reflexivity)
+                | (rewrite H5; unfold q2; rs; lia)
+                | (rewrite Hesz; lia) ].
+           ++ left. rewrite H1, skipn_all. splits; try reflexivity; assumption.
+      * (* L1: fits behind the last entry *)
+        apply gtb_false_inv in W.
+        assert (Z0 : nx0 <=? first q = false) by (apply Z.leb_gt; lia). rewrite Z0.
+        exists (finish q nx0 e), 0%nat, nx0. split; [reflexivity|]. cbn [skipn]. split; [lia|]. split; [|split; reflexivity].
+        apply (finish_inv q (l' ++ [(pl, el)]) nx0 e); try assumption; try reflexivity.
+        right; left. splits; try assumption; try reflexivity; try lia. destruct l'; discriminate.
+    + (* ---------------- wrapped *)
+      destruct HW as (A & B & EAB & HA & HB & HcA & Hli & HeA & HcB & Hlast & HeB). rewrite EAB in *.
+      apply sane_app in Hs. destruct Hs as [HsA HsB]. apply stored_app in Hst. destruct Hst as [HstA HstB].
+      destruct (snoc_cases B HB) as (B' & [pb eb] & EB).
+      assert (Hlastpb : last q = pb) by (rewrite Hlast, EB; apply lastoff_snoc).
+      assert (Hfl : find (cells q) pb = Some eb).
+      { apply (proj1 (Forall_forall _ _) HstB (pb, eb)). rewrite EB. apply in_or_app; right; left; reflexivity. }
+      rewrite Hlastpb, Hfl.
+      assert (Hnx : pb + HDR + e_sz eb = endof 0 B).
+      { rewrite EB, endof_snoc. rewrite EB in HcB. apply contig_snoc in HcB. destruct HcB as [_ ->]. unfold esz. lia. }
+      rewrite Hnx. set (nx0 := endof 0 B) in *.
+      assert (Heb : 0 <= e_sz eb <= 250).
+      { pose proof (proj1 (Forall_forall _ _) HsB (pb, eb)) as X. apply X. rewrite EB. apply in_or_app; right; left; reflexivity. }
+      assert (Hpb0 : 0 <= pb).
+      { destruct (contig_bounds B 0 (pb, eb) HsB HcB) as [Hb _]; [rewrite EB; apply in_or_app; right; left; reflexivity | exact Hb]. }
+      assert (Hpb : pb + 16 <= nx0) by (unfold HDR in Hnx; lia).
+      rewrite app_length in Hc, Hfu, Htot.
+      assert (HlenA : (0 < length A)%nat) by (destruct A; [congruence | cbn; lia]).
+      assert (HlenB : (0 < length B)%nat) by (destruct B; [congruence | cbn; lia]).
+      apply ids_from_app in Hid. destruct Hid as [HidA HidB].
+      destruct (nx0 + (HDR + lenz a) >? qsize q) eqn:W.
+      * (* W2: does not fit at the end: the upper run is dropped as a whole, then entries of the lower run from offset 0 *)
+        assert (Z0 : nx0 <=? first q = true) by (apply Z.leb_le; lia). rewrite Z0.
+        destruct (snoc_cases A HA) as (A' & [pa ea] & EA).
+        assert (Hcount : count_to_end (FUEL q) q (first q) = Ok (Z.of_nat (length A))).
+        { rewrite EA. apply count_to_end_spec; try (rewrite <- EA; assumption).
+          - rewrite <- EA. unfold FUEL. lia.
+          - rewrite Hli, EA. apply lastoff_snoc. }
+        rewrite Hcount. rs. rewrite (geb_true pb 0 Hpb0). rs.
+        set (q2 := setq (setq q (cnt q - Z.of_nat (length A)) 0 pb (lib q)) (cnt q - Z.of_nat (length A)) 0 pb pb).
+        destruct (make_room_spec B (FUEL q) q2 0 (HDR + lenz a)) as (q4 & d & Em & Hd & Hcn & Hqs & Hla4 & Hni & Hce & Hres);
+          try (unfold q2; rs; assumption).
+        { unfold q2. rs. rewrite EB. rewrite lastoff_snoc. reflexivity. }
+        { unfold q2. rs. lia. }
+        { unfold FUEL. lia. }
+        rewrite Em. unfold q2 in Hcn, Hqs, Hla4, Hni, Hce, Hres. cbn [qsize cnt first last lib nid cells setq] in Hcn, Hqs, Hla4, Hni, Hce, Hres.
+        eexists. exists (length A + d)%nat, 0. split; [reflexivity|]. split; [rewrite app_length; lia|]. split; [|split; [rs; lia | rs; lia]].
+        rewrite skipn_all_app.
+        match goal with |- MQInv ?Q _ => replace Q with (finish q4 0 e) by (unfold finish, e, new_ent; rewrite Hni; reflexivity) end.
+        assert (HsK : sane (skipn d B)) by (apply Forall_skipn; exact HsB).
+        assert (HstK : stored (cells q4) (skipn d B)) by (rewrite Hce; apply Forall_skipn; exact HstB).
+        assert (HidK : ids_from (nid q4 - cnt q4) (skipn d B)).
+        { rewrite Hni, Hcn. replace (nid q - (cnt q - Z.of_nat (length A) - Z.of_nat d)) with (nid q - cnt q + Z.of_nat (length A) + Z.of_nat d) by lia.
+          apply ids_from_skipn; assumption. }
+        apply (finish_inv q4 (skipn d B) 0 e); try assumption; try lia.
+        -- rewrite Hcn, skipn_length. lia.
+        -- unfold e, new_ent. cbn [e_id]. lia.
+        -- destruct Hres as [(H1 & H2 & H3 & H4 & H5 & H6 & H7) | (H1 & H2 & H3)].
+           ++ right; right. exists (skipn d B), []. rewrite app_nil_r. cbn [contig endof].
+              splits; first [ assumption | reflexivity | lia
+                | (intros E0; apply (f_equal (@length _)) in E0; rewrite skipn_length in E0; cbn [length] in E0; lia)
+                | (rewrite H3; unfold q2; rs; rewrite H6; rewrite EB; rewrite lastoff_snoc; reflexivity)
+                | (rewrite H5, Hqs; fold nx0; pose proof (endof_ge A (first q) HsA); lia)
+                | (rewrite Hesz; lia) ].
+           ++ left. rewrite H1, skipn_all. splits; try reflexivity; assumption.
+      * (* W1: fits behind the lower run; entries of the upper run that are in the way are dropped *)
+        apply gtb_false_inv in W.
+        assert (Z0 : nx0 <=? first q = true) by (apply Z.leb_le; lia). rewrite Z0.
+        destruct (make_room_spec A (FUEL q) q nx0 (HDR + lenz a)) as (q4 & d & Em & Hd & Hcn & Hqs & Hla4 & Hni & Hce & Hres); try assumption.
+        { lia. }
+        { unfold FUEL. lia. }
+        rewrite Em.
+        eexists. exists d, nx0. split; [reflexivity|]. split; [rewrite app_length; lia|]. split; [|split; [rs; lia | rs; lia]].
+        rewrite (skipn_app_le A B d Hd).
+        match goal with |- MQInv ?Q _ => replace Q with (finish q4 nx0 e) by (unfold finish, e, new_ent; rewrite Hni; reflexivity) end.
+        assert (HsK : sane (skipn d A ++ B)) by (apply sane_app; split; [apply Forall_skipn; exact HsA | exact HsB]).
+        assert (HstK : stored (cells q4) (skipn d A ++ B)) by (rewrite Hce; apply stored_app; split; [apply Forall_skipn; exact HstA | exact HstB]).
+        assert (HidK : ids_from (nid q4 - cnt q4) (skipn d A ++ B)).
+        { rewrite Hni, Hcn. replace (nid q - (cnt q - Z.of_nat d)) with (nid q - cnt q + Z.of_nat d) by lia.
+          apply ids_from_app. split; [apply ids_from_skipn; assumption|].
+          rewrite skipn_length. replace (nid q - cnt q + Z.of_nat d + Z.of_nat (length A - d)) with (nid q - cnt q + Z.of_nat (length A)) by lia. exact HidB. }
+        apply (finish_inv q4 (skipn d A ++ B) nx0 e); try assumption; try lia.
+        -- rewrite Hcn, app_length, skipn_length. lia.
+        -- unfold e, new_ent. cbn [e_id]. lia.
+        -- destruct Hres as [(H1 & H2 & H3 & H4 & H5 & H6 & H7) | (H1 & H2 & H3)].
+           ++ right; right. exists (skipn d A), B.
+              splits; first [ assumption | reflexivity | lia
+                | (intros E0; apply (f_equal (@length _)) in E0; rewrite skipn_length in E0; cbn [length] in E0; lia)
+                | (rewrite H3, H6; exact Hli)
+                | (rewrite H5; exact HeA)
+                | (rewrite Hesz; lia) ].
+           ++ right; left. rewrite H1, skipn_all, H2. cbn [app].
+              splits; first [ assumption | reflexivity | lia | (rewrite Hesz; lia) ].
+Qed.
